@@ -7,6 +7,15 @@ use crate::engine::{guarded, Outcome, Part, PartKind, Tier};
 use crate::gen::{book_case_strategy, core_op, core_sequence, core_sequence2, core_space, core_space2, exact_ref, GenCfg};
 use crate::ops::{run_book_case, BookCase, Features, Op, Oracles};
 
+/// level populations around 2^16: quick, thorough, and the single count used where the reference engine runs
+static POP_Q: [u32; 3] = [65_535, 65_536, 65_537];
+static POP_T: [u32; 6] = [65_535, 65_536, 65_537, 70_000, 131_071, 131_073];
+static POP_M: [u32; 1] = [65_536];
+
+/// numbers of orders resting on one side when a snapshot is taken
+static SNAP_Q: [u32; 12] = [255, 256, 257, 1_023, 1_024, 1_025, 4_095, 4_096, 4_097, 65_535, 65_536, 65_537];
+static SNAP_T: [u32; 16] = [255, 256, 257, 511, 512, 513, 1_023, 1_024, 1_025, 4_095, 4_096, 4_097, 65_535, 65_536, 65_537, 131_073];
+
 pub const TICK: u32 = 2;
 pub const MID: u32 = 50;
 
@@ -113,7 +122,7 @@ pub fn outcome(id: &str, case: &BookCase) -> Outcome {
 }
 
 fn case_of(ops: Vec<Op>, tie: bool, trading: bool, levels: usize) -> BookCase {
-    BookCase { tick: TICK, levels, trading, t0: 0, tie, ops, drain: true, quiet: 0 }
+    BookCase { tick: TICK, levels, trading, t0: 0, tie, ops, drain: true, quiet: 0, bulk: vec![] }
 }
 
 fn random_part(name: &str, cfg: GenCfg, cases: u64) -> Part<Case> {
@@ -220,6 +229,91 @@ fn exhaustive_level_depths(name: &str, tie: bool) -> Part<Case> {
     }
 }
 
+/// One price level of EXACTLY n orders for n around 2^16 (order counts / level volumes that do not fit 16 bits),
+/// built as an unobserved bulk prefix, with a second level behind it; then a cancel of one of them, a reduction of
+/// another, and one of four aggressors that consumes the level in one go; then the drain probe.
+fn exhaustive_level_populations(name: &str, tie: bool, ns: &'static [u32]) -> Part<Case> {
+    const KINDS: u64 = 4;
+    let total = ns.len() as u64 * 2 * KINDS;
+    Part {
+        name: name.to_string(),
+        kind: PartKind::Exhaustive {
+            total,
+            decode: Box::new(move |i| {
+                let kind = i % KINDS;
+                let agg_bid = (i / KINDS) % 2 == 0;
+                let n = ns[(i / KINDS / 2) as usize];
+                let (p1, p2, far) = if agg_bid { ((MID + 1) * TICK, (MID + 2) * TICK, (MID - 6) * TICK) } else { ((MID - 1) * TICK, (MID - 2) * TICK, (MID + 6) * TICK) };
+                // ids 0..n: the level; ids n, n+1: the level behind it
+                let bulk = vec![(!agg_bid, n, p1, 1u32), (!agg_bid, 2, p2, 3u32)];
+                let mut ops = vec![];
+                ops.push(Op::Advance(1));
+                // id n+2: a resting order of the aggressor's side far from the touch (re-priced in kind 3)
+                ops.push(Op::CreatePlace { bid: agg_bid, vol: 1, trader: 5, price: Some(far) });
+                ops.push(Op::Advance(1));
+                ops.push(Op::Cancel(exact_ref(5)));
+                ops.push(Op::Advance(1));
+                // volumes are 1 each: nothing to reduce; a second order joins the level instead (count n again)
+                ops.push(Op::CreatePlace { bid: !agg_bid, vol: 2, trader: 3, price: Some(p1) });
+                let sum = n - 1 + 2;
+                ops.push(Op::Advance(1));
+                ops.push(match kind {
+                    0 => Op::CreatePlace { bid: agg_bid, vol: sum, trader: 9, price: Some(p1) },
+                    1 => Op::CreatePlace { bid: agg_bid, vol: sum + 1, trader: 9, price: None },
+                    2 => Op::CreatePlace { bid: agg_bid, vol: sum + 1, trader: 9, price: Some(p2) },
+                    _ => Op::Modify { r: exact_ref(n as usize + 2), price: Some(p1), vol: Some(sum - 3) },
+                });
+                let mut c = case_of(ops, tie, true, 3);
+                c.bulk = bulk;
+                Some(Case::Book(c))
+            }),
+            description: format!(
+                "{}one price level of exactly n orders for n in {:?} (placed as an unobserved prefix) with two orders on the level behind it x passive side x 4 aggressors after one cancel and one further placement at the level (limit for exactly the level's volume, market for one more, limit through to the next level, resting order re-priced onto the level for all but 3 units), every view / record audited after each of these operations, then the drain probe",
+                if tie { "(whole level queued at one timestamp) " } else { "" },
+                ns
+            ),
+        },
+    }
+}
+
+/// A snapshot taken with EXACTLY n orders resting on one side (spread over four price levels: n-6, 3, 2 and 1
+/// orders, the single order on the level furthest from the touch) for n around 2^8, 2^10, 2^12 and 2^16, through each
+/// serialisation route, followed by an operation on the far levels (cancel, reduction, a new order joining the
+/// furthest level, or nothing) and the drain probe.
+fn exhaustive_snapshot_populations(name: &str, ns: &'static [u32]) -> Part<Case> {
+    const KINDS: u64 = 4;
+    let total = ns.len() as u64 * 2 * KINDS;
+    Part {
+        name: name.to_string(),
+        kind: PartKind::Exhaustive {
+            total,
+            decode: Box::new(move |i| {
+                let kind = i % KINDS;
+                let bid = (i / KINDS) % 2 == 0;
+                let n = ns[(i / KINDS / 2) as usize];
+                let lvl = |k: u32| if bid { (MID - 1 - k) * TICK } else { (MID + 1 + k) * TICK };
+                // ids 0..n-6: touch level; n-6..n-3: second; n-3, n-2: third; n-1: furthest
+                let bulk = vec![(bid, n - 6, lvl(0), 2u32), (bid, 3, lvl(1), 2), (bid, 2, lvl(2), 3), (bid, 1, lvl(3), 4)];
+                let mut ops = vec![];
+                ops.push(Op::Advance(1));
+                ops.push(Op::CreatePlace { bid: !bid, vol: 2, trader: 5, price: Some(if bid { (MID + 2) * TICK } else { (MID - 2) * TICK }) });
+                ops.push(Op::Reload(((kind + bid as u64) % 4) as u8));
+                ops.push(Op::Advance(1));
+                match kind {
+                    0 => ops.push(Op::Cancel(exact_ref(n as usize - 1))),
+                    1 => ops.push(Op::Modify { r: exact_ref(n as usize - 2), price: None, vol: Some(1) }),
+                    2 => ops.push(Op::CreatePlace { bid, vol: 1, trader: 6, price: Some(lvl(3)) }),
+                    _ => {}
+                }
+                let mut c = case_of(ops, false, true, 5);
+                c.bulk = bulk;
+                Some(Case::Book(c))
+            }),
+            description: format!("a snapshot taken with exactly n orders resting on one side for n in {:?} (n-6, 3, 2 and 1 orders on four adjacent price levels, placed as an unobserved prefix; LEVELS 5) x side x serialisation route x (cancel of the order on the furthest level, reduction of an order on the third level, a new order joining the furthest level, nothing), original and reloaded book in lock-step, then the drain probe", ns),
+        },
+    }
+}
+
 /// A side of EXACTLY `n` occupied price levels (1 or 2 orders each) and one aggressor that sweeps all of them,
 /// all but one, or half of them in a single match: many fills from one incoming order, every level count 1..=160.
 fn exhaustive_level_counts(name: &str) -> Part<Case> {
@@ -261,7 +355,7 @@ fn exhaustive_level_counts(name: &str) -> Part<Case> {
                     3 => Op::CreatePlace { bid: agg_bid, vol: half, trader: 9, price: None },
                     _ => Op::CreatePlace { bid: agg_bid, vol: all, trader: 9, price: Some(level((n - 1) / 2)) },
                 });
-                Some(Case::Book(BookCase { tick: TICK, levels: 10, trading: true, t0: 0, tie: false, ops, drain: true, quiet: 0 }))
+                Some(Case::Book(BookCase { tick: TICK, levels: 10, trading: true, t0: 0, tie: false, ops, drain: true, quiet: 0, bulk: vec![] }))
             }),
             description: "every number n in 1..=160 of occupied price levels on the passive side (1 or 2 orders per level) x aggressor side x 5 aggressors (market for everything, limit through the last level for more than everything, limit for all but one unit, market for the nearer half, limit for everything priced at the middle level), LEVELS 10, then the drain probe".to_string(),
         },
@@ -339,6 +433,11 @@ pub fn parts(id: &'static str, tier: Tier) -> Vec<Part<Case>> {
             parts.push(exhaustive_core2("exhaustive-core-5-prices-3-volumes", tier.pick(3, 4), &ADV01, false, 5));
             parts.push(exhaustive_level_depths("exhaustive-level-depths", false));
             parts.push(exhaustive_level_counts("exhaustive-level-counts"));
+            // (the reference engine's linear scans make a level of 2^16 orders cost ~15 s per case: thorough tier only;
+            // the model-free checks C02, C03, C04 enumerate these populations in their quick tier)
+            if !q {
+                parts.push(exhaustive_level_populations("exhaustive-level-populations", false, &POP_M));
+            }
             let mut c = GenCfg::base(len);
             c.w_modify = 4;
             parts.push(random_part("random-dense", c.clone(), tier.pick(150_000, 3_000_000)));
@@ -366,6 +465,10 @@ pub fn parts(id: &'static str, tier: Tier) -> Vec<Part<Case>> {
             parts.push(exhaustive_core2("exhaustive-core-5-prices-3-volumes", tier.pick(3, 4), &ADV01, false, if id == "C02" { 4 } else { 5 }));
             parts.push(exhaustive_level_depths("exhaustive-level-depths", false));
             parts.push(exhaustive_level_counts("exhaustive-level-counts"));
+            parts.push(exhaustive_level_populations("exhaustive-level-populations", false, if q { &POP_Q } else { &POP_T }));
+            if id == "C02" {
+                parts.push(exhaustive_snapshot_populations("exhaustive-snapshot-populations", if q { &SNAP_Q } else { &SNAP_T }));
+            }
             let mut c = GenCfg::base(len);
             c.w_modify = 14;
             c.w_trading = if id == "C02" { 2 } else { 3 };
@@ -409,6 +512,7 @@ pub fn parts(id: &'static str, tier: Tier) -> Vec<Part<Case>> {
                 ));
             }
             parts.push(exhaustive_level_depths("exhaustive-level-depths", false));
+            parts.push(exhaustive_level_populations("exhaustive-level-populations", false, if q { &POP_Q } else { &POP_T }));
             let mut c = GenCfg::base(len);
             c.redundant_skew = true;
             c.w_modify = 14;
@@ -419,6 +523,8 @@ pub fn parts(id: &'static str, tier: Tier) -> Vec<Part<Case>> {
             c.start_off_pct = 15;
             c.w_advance = 12;
             c.market_pct = 30;
+            // "all operation sequences": a snapshot reload between a transition and the request that follows it
+            c.w_reload = 2;
             parts.push(random_part("random-dense-redundant", c.clone(), tier.pick(150_000, 3_000_000)));
             c.wide = true;
             parts.push(random_part("random-wide-redundant", c, tier.pick(60_000, 1_500_000)));
@@ -427,6 +533,9 @@ pub fn parts(id: &'static str, tier: Tier) -> Vec<Part<Case>> {
             parts.push(exhaustive_core("exhaustive-core-ties", tier.pick(4, 5), &ADV01, true));
             parts.push(exhaustive_core2("exhaustive-core-ties-5-prices-3-volumes", tier.pick(3, 4), &ADV01, true, 5));
             parts.push(exhaustive_level_depths("exhaustive-tied-level-depths", true));
+            if !q {
+                parts.push(exhaustive_level_populations("exhaustive-tied-level-populations", true, &POP_M));
+            }
             // re-queuing modification / reload inserted after every depth<=3 core with ties
             let prices = grid_prices();
             parts.push(exhaustive_tail(
@@ -542,6 +651,7 @@ pub fn parts(id: &'static str, tier: Tier) -> Vec<Part<Case>> {
                 "every tie-free core sequence of depth 3 x snapshot taken after 0..3 steps x 4 serialisation routes (string, pretty string, file, pretty file) x (no continuation or one of the 16 core ops), original and reloaded driven in lock-step, then the drain probe".to_string(),
                 false,
             ));
+            parts.push(exhaustive_snapshot_populations("exhaustive-snapshot-populations", if q { &SNAP_Q } else { &SNAP_T }));
             let mut c = GenCfg::base(len);
             c.w_modify = 12;
             c.w_reload = 6;
@@ -596,6 +706,8 @@ pub fn parts(id: &'static str, tier: Tier) -> Vec<Part<Case>> {
             c.w_modify = 20;
             c.w_create = 10;
             c.w_trading = 2;
+            // "at any point of any history": the grid must still be enforced after a snapshot reload
+            c.w_reload = 2;
             parts.push(random_part("random-dense-arbitrary-prices", c.clone(), tier.pick(150_000, 3_000_000)));
             c.wide = true;
             parts.push(random_part("random-wide-arbitrary-prices", c, tier.pick(60_000, 1_500_000)));
@@ -639,6 +751,8 @@ pub fn parts(id: &'static str, tier: Tier) -> Vec<Part<Case>> {
             c.w_modify = 14;
             c.start_off_pct = 30;
             c.market_pct = 25;
+            // the flag must survive a snapshot reload (also of a book that never had an order)
+            c.w_reload = 3;
             parts.push(random_part("random-dense-toggles", c.clone(), tier.pick(120_000, 2_500_000)));
             c.wide = true;
             parts.push(random_part("random-wide-toggles", c, tier.pick(50_000, 1_000_000)));
